@@ -7,7 +7,7 @@ import contracts.context as CX
 # check_cache: "nothing is saved while incomplete data may be loaded / under a partial request" (dominance obligations);
 # save_file: the chunk file is written under a temporary name and renamed afterwards
 PROVED = [ST.save_from, ST.saver_close, ST.saver_save, ST.frontend_find, ST.can_overwrite, ST.filesaver_init, CX.check_cache,
-          ST.save_file_str, ST._save_file_c]
+          ST.save_file_str, ST._save_file_c, ST.filesaver_save_chunk, ST.filesaver_close]
 
 PROPERTY = Property(
     "C04", "proof",
